@@ -60,6 +60,13 @@ def run(ctx):
         if not ctx.samples:
             recs = ctx.read_ndjson(of)
             ctx.samples = [dict(text=x["obs"].get("text"), tree=x["obs"].get("str")) for x in recs[5:2000:400]]
+    def corrupt(r):
+        t = r["obs"].get("tree")
+        if isinstance(t, dict) and t.get("k") == "BinaryExpr":
+            t["Op"] = "+" if t["Op"] != "+" else "*"
+            return True
+        return False
+    vp.binding_selftest(ctx, "Judge_c03", "Judge_c03.cfg", ctx.path("obs_%s.ndjson" % parts[0][0]), corrupt)
     ctx.exhaustive = False if not ctx.quick else ctx.exhaustive
     ctx.coverage_extra["exhaustive_parts"] = [p[0] for p in parts if not p[2]]
     ctx.coverage_extra["sampled_parts"] = [p[0] for p in parts if p[2]]
